@@ -59,21 +59,25 @@ package engine
 // ---- C05: admission checks in their fixed precedence ------------------------------------------------------
 // transport known and enabled > Origin well-formed > session id known and bound to the same transport unless
 // upgrading > GET for handshakes > no plain-HTTP handshake for WebSocket > allow-request hook.
+// registry invariant: every registered session is a non-nil Socket (Handshake, the only writer that adds, stores the
+// socket NewSocket returned; the close hook only removes). Assumed where the registry is read, proved kept where it is written.
+//@ macro registryOK(m) = forall k string :: mhas(m, k) ==> mval(m, k) != nil
 //@ func (*baseServer).Verify(ctx, upgrade)
 //@   props C05, C04
 //@   requires bs != nil && ctx != nil && bs.opts != nil && bs.clients != nil && ctx.query != nil && ctx.headers != nil && ctx.query != ctx.headers
 //@   requires bs.opts.Transports() != nil && ctx.request != nil
+//@   assumes registryOK(bs.clients)
 //@   dyncall allowRequest pure
-//@   modifies ctx.headers.$bagver, ctx.method
+//@   modifies ctx.headers.$bagver, ctx.method, MapGuarded(bs.clients)
 //@   let method    = old(ctx.method) != "" ? old(ctx.method) : uf_s_ToUpper(old(ctx.request.Method))
 //@   let transport = uf_s_peek(ctx.query, "transport", ctx.query.$bagver)
 //@   let sid       = uf_s_peek(ctx.query, "sid", ctx.query.$bagver)
 //@   let origin    = uf_s_peek(ctx.headers, "Origin", old(ctx.headers.$bagver))
 //@   let tBad      = !maphas(bs.opts.Transports().cache, transport) || transport == "webtransport"
 //@   let oBad      = invalidHeaderChar(origin)
-//@   let known     = uf_b_mapHas(bs.clients, sid, bs.clients.$mapver)
+//@   let known     = old(mhas(bs.clients, sid))
 //@   let hasSid    = len(sid) > 0
-//@   let prevName  = Socket(uf_i_mapVal(bs.clients, sid, bs.clients.$mapver)).Transport().Name()
+//@   let prevName  = old(mval(bs.clients, sid)).Transport().Name()
 //@   ensures [C05.v.transport] tBad ==> result0 == UNKNOWN_TRANSPORT
 //@   ensures [C05.v.origin]    !tBad && oBad ==> result0 == BAD_REQUEST
 //@   ensures [C05.v.sid,C04.unknown] !tBad && !oBad && hasSid && !known ==> result0 == UNKNOWN_SID
@@ -491,6 +495,9 @@ package engine
 //@   ensures [C06.order]    result1 != nil ==> before(NewSocket, 1, (*types.Map).Store, 1) && before((*types.Map).Store, 1, types.EventEmitter.Once, 1)
 //@   ensures [C06.protocol] result1 != nil ==> arg(NewSocket, 1, protocol) == (eio4 ? 4 : 3) && arg(NewSocket, 1, transport) == result1 && arg(NewSocket, 1, ctx) == ctx
 //@   ensures [C06.rev3]     result1 != nil && !eio4 ==> bs.opts.AllowEIO3()
+// what is registered is the session just created, never nil (with Store leaving the other keys alone, this keeps the registry invariant)
+//@   callsite (*types.Map).Store#1
+//@     assert [C04.registry.nonnil] $value != nil && $m == bs.clients
 
 // ---- C17: middlewares run in registration order, starting with the first (the CORS middleware, which Construct registers
 // before any application middleware can be added): a preflight is answered by it before anything else sees the request
@@ -543,9 +550,11 @@ package engine
 //@ func (*baseServer).Handshake$2()
 //@   props C04, C17
 //@   requires bs != nil && bs.clients != nil
-//@   modifies bs.clients.$mapver, bs.clientsCount
-//@   ensures [C04.unregister] calls((*types.Map).Delete) == 1 && arg((*types.Map).Delete, 1, key) == id && !uf_b_mapHas(bs.clients, id, bs.clients.$mapver)
+//@   modifies MapState(bs.clients), bs.clientsCount
+//@   ensures [C04.unregister] calls((*types.Map).Delete) == 1 && arg((*types.Map).Delete, 1, key) == id && !mhas(bs.clients, id)
 //@   ensures [C04.minusone]   bs.clientsCount.v == old(bs.clientsCount.v) - 1
+//@   ensures [C04.registry.kept] old(registryOK(bs.clients)) ==> registryOK(bs.clients)
+//@   ensures [C04.unregister.only] forall k string :: k != id ==> mhas(bs.clients, k) == old(mhas(bs.clients, k))
 //@   ensures [C04.closeonly,C17.headerskept] nevents() == 1    // it only unregisters the session (the Delete; the counter update is an atomic): nothing is detached from the transport, whose remaining responses still fire 'headers'
 
 // ---- shutdown (C12, C04): every session of the table is force-closed; the table itself is edited only by each
@@ -590,6 +599,10 @@ package engine
 //@   ensures [C08.wt.busy]     gated && ret((*types.Map).Load, 1, 1) && (ret(Socket.Upgrading, 1) || ret(Socket.Upgraded, 1)) ==> calls((*wtgo.Session).CloseWithError) == 1 && calls(Socket.MaybeUpgrade) == 0 && calls((*server).CreateTransport) == 0
 //@   ensures [C08.wt.admit]    calls(Socket.MaybeUpgrade) <= 1 && (calls(Socket.MaybeUpgrade) == 1 ==> gated && ret((*types.Map).Load, 1, 1) && !ret(Socket.Upgrading, 1) && !ret(Socket.Upgraded, 1) && ret((*server).CreateTransport, 1, 1) == nil && arg(Socket.MaybeUpgrade, 1, transport) == ret((*server).CreateTransport, 1, 0) && calls((*wtgo.Session).CloseWithError) == 0)
 //@   ensures [C08.wt.admitted] gated && ret((*types.Map).Load, 1, 1) && !ret(Socket.Upgrading, 1) && !ret(Socket.Upgraded, 1) && ret((*server).CreateTransport, 1, 1) == nil ==> calls(Socket.MaybeUpgrade) == 1 && arg(Socket.MaybeUpgrade, 1, this) == ret((*types.Map).Load, 1, 0)
+// the registry invariant (every registered session is a non-nil Socket; proved kept by Handshake and by the close hook,
+// the only writers) is an invariant of state shared between requests: it is assumed where the registry is read
+//@   callsite (*types.Map).Load#1
+//@     assume registryOK(s.Clients())
 
 //@ func (*server).HandleUpgrade$1(codeMessage, errorContext)
 //@   props C10, C05
@@ -612,6 +625,7 @@ package engine
 //@ func (*server).onWebSocket(ctx, wsc)
 //@   props C08, C05
 //@   requires s != nil && s.BaseServer != nil && ctxOK(ctx) && wscOK(wsc)
+//@   assumes registryOK(s.Clients())
 //@   modifies *
 //@   let tname   = uf_s_peek(ctx.query, "transport", old(ctx.query.$bagver))
 //@   let id      = uf_s_peek(ctx.query, "sid", old(ctx.query.$bagver))
@@ -678,6 +692,7 @@ package engine
 //@   ensures result != nil
 //@ func BaseServer.Verify(ctx, upgrade)
 //@   modifies *
+//@   ensures registryOK(this.Clients())   // admission only reads the registry
 
 // the handler returns only after the response has been written: whatever the middleware chain does with the request, the
 // handler then waits for the request context's done channel (closed by the first write of a response)
@@ -693,6 +708,7 @@ package engine
 //@   props C05, C04
 //@   requires s != nil && s.BaseServer != nil && ctxOK(ctx)
 //@   requires maphas(errorContext, "message") ==> typeis(mapval(errorContext, "message"), string)
+//@   assumes registryOK(s.Clients())
 //@   modifies *
 //@   let sid = uf_s_peek(ctx.query, "sid", old(ctx.query.$bagver))
 //@   ensures [C05.req.reject]    codeMessage != nil ==> calls((*server).emitAbortRequest) == 1 && calls(BaseServer.Handshake) == 0 && calls(transports.Transport.OnRequest) == 0 && nevents() == 1
